@@ -233,6 +233,17 @@ def selftest(chk, events_path, exclude=()):
     log(f"[C06] self-test: {len(bad)} corrupted events rejected, {len(evs) - len(bad)} intact events accepted")
 
 
+def bug_selfcheck():
+    """Anti-vacuity of the design invariant: each named wrong variant of IntOps must violate RowOK."""
+    for b in ("floor_div", "wrap_off", "no_min_ovf", "sat_sub"):
+        res = tlc(SPEC, "MCIntOps", f"MCIntOps_bug_{b}.cfg", f"c06_bug_{b}", workers=8, timeout=900, env=STACK, heap="4g",
+                  extra=["-noGenerateSpecTE"] if False else None)
+        if "RowOK" not in res.violated:
+            raise ToolError(f"self-check: IntOps with BUG={b} does not violate RowOK (see {res.out_path})")
+        os.remove(res.out_path)
+    log("[C06] self-check: BUG variants floor_div, wrap_off, no_min_ovf, sat_sub each violate RowOK")
+
+
 def main(tier, replay=None):
     chk = Check("C06", tier)
     build_harness(["intops_run"])
@@ -246,6 +257,8 @@ def main(tier, replay=None):
         log(f"[C06] replay: {n} calls, {rej} rejected by IntOpsTrace")
         chk.cov["traces_validated_against_impl"] = n
         return chk.finish()
+    if tier == "thorough":
+        bug_selfcheck()
     tsum, nfn, trows = tables(chk, tier)
     wsum, nev, nrej, wsamples, plan = wide(chk, tier)
     for s in trows[:3] + wsamples[:3]:
@@ -271,5 +284,8 @@ def main(tier, replay=None):
         "wide_events": nev, "wide_rejected": nrej, "wide_functions": wsum["functions"], "wide_panics": wsum["panics"],
         "wide_plan": plan,
         "distinct_nontrivial": tsum["panics_observed"] + wsum["panics"],
-        "distinct_nontrivial_rule": "calls whose outcome is an overflow / underflow / division-by-zero panic",
+        "rule": "every (operation, type, operand tuple) is executed once (table cells enumerated by TLC; wide tuples "
+                "de-duplicated per operation); non-trivial = the call ends in an overflow / underflow / "
+                "division-by-zero panic",
+        "evaluations": tsum["cells"] + nev,
     })
